@@ -59,6 +59,12 @@ template <class X> Str do_strings(const Str& s, int plus, int nb, int br) {
             out += fmt("fromfile%d rc=%d text=%s;", ux, rc, escv(narrow<X>(bk, bk + xstrlen<X>(bk))).c_str()); free(bk); free(o);
         }
     }
+    // the same text taken for a URI string: back to a file name, both flavours (the result never is longer than the input)
+    {
+        std::vector<Char> u(w.begin(), w.end()); u.push_back(0);
+        for (int ux = 0; ux < 2; ux++) { Char* bk = (Char*)malloc((s.size() + 1) * sizeof(Char)); int rc; { LibScope ls; rc = ux ? X::UriStringToUnixFilename(u.data(), bk) : X::UriStringToWindowsFilename(u.data(), bk); }
+            out += fmt("asuri%d rc=%d text=%s;", ux, rc, rc == 0 ? escv(narrow<X>(bk, bk + xstrlen<X>(bk))).c_str() : ""); free(bk); }
+    }
     // query: dissect the string, compose the list again
     {
         typename X::QList* list = nullptr; int count = -1; int rc; { LibScope ls; rc = X::DissectQueryMallocEx(&list, &count, w.data(), w.data() + w.size(), plus, (UriBreakConversion)br); }
@@ -105,7 +111,8 @@ static void run_case(Ctx& c, uint64_t idx) {
         if (idx % 30000 == 1) c.sample("ops", esc(a) + " , " + esc(b));
         break; }
     default: {
-        Str s; switch (r.below(4)) { case 0: s = gen_filename_unix(r); break; case 1: s = gen_filename_win(r); break; case 2: { static const char* ip[] = {"1.2.3.4", "255.255.255.255", "256.1.1.1", "1.2.3", "01.2.3.4", "1.2.3.4.", "0.0.0.0", "1.2.3.4x", "999.1.1.1", "25.25.25.25", "1..2.3"}; s = ip[r.below(11)]; if (r.coin()) s = mutate(r, s, 1); } break; default: s = gen_string(r, 24); }
+        Str s; switch (r.below(5)) { case 4: { static const char* const US[] = {"file://localhost/etc/fstab", "file:///x%20y", "file:/x", "file:c:/x", "file://srv/share/a", "FILE:///x", "file://localhost", "file:///C:/x%41", "file:///C|/x", "rel/x%41", "file:", "file://", "file:///", "file://LOCALHOST/x", "file://localhost:80/x", "http://h/p", "file:////srv/x"}; s = US[r.below(17)]; if (r.chance(1, 4)) s = mutate(r, s, 1); } break;
+            case 0: s = gen_filename_unix(r); break; case 1: s = gen_filename_win(r); break; case 2: { static const char* ip[] = {"1.2.3.4", "255.255.255.255", "256.1.1.1", "1.2.3", "01.2.3.4", "1.2.3.4.", "0.0.0.0", "1.2.3.4x", "999.1.1.1", "25.25.25.25", "1..2.3"}; s = ip[r.below(11)]; if (r.coin()) s = mutate(r, s, 1); } break; default: s = gen_string(r, 24); }
         for (auto& ch : s) if (!ch) ch = 1;
         int plus = (int)r.below(2), nb = (int)r.below(2), br = (int)r.below(4);
         c.note("aw strings \"" + esc(s.substr(0, 200)) + "\""); c.distinct(hash_str(s, 3));
